@@ -392,8 +392,8 @@ fn binary_forms(bk: Bk, op: Op) -> Vec<Form> {
     forms_of(bk).into_iter().filter(|f| f.op() == op && f.arity() == 2).collect()
 }
 
-fn program(bk: Bk) -> BoxedStrategy<Case> {
-    (proptest::collection::vec(recipe::recipe_small(), 2..=4), proptest::collection::vec(instr(forms_of(bk)), 1..=14))
+fn program(bk: Bk, max_len: usize) -> BoxedStrategy<Case> {
+    (proptest::collection::vec(recipe::recipe_small(), 2..=4), proptest::collection::vec(instr(forms_of(bk)), 1..=max_len))
         .prop_map(move |(regs, prog)| Case::Program { bk, regs, prog })
         .boxed()
 }
@@ -423,10 +423,11 @@ impl Property for C04 {
     fn cases(&self, tier: Tier) -> u64 {
         tier.pick(14_000, 700_000)
     }
-    fn strategy(&self, _tier: Tier) -> BoxedStrategy<Case> {
+    fn strategy(&self, tier: Tier) -> BoxedStrategy<Case> {
+        let max_len = tier.pick(14, 40) as usize;
         prop_oneof![
-            10 => program(Bk::Ark),
-            2 => program(Bk::Min),
+            10 => program(Bk::Ark, max_len),
+            2 => program(Bk::Min, max_len),
             3 => laws_case(Bk::Ark),
             1 => laws_case(Bk::Min),
         ]
